@@ -199,6 +199,7 @@ func (t *Collection) SetItem(item *Item) (err error) {
 	defer t.freeNodeLoc(nloc)
 	r, err := t.store.union(t, root, nloc, &rnl.reclaimMark)
 	if err != nil {
+		t.unmarkReclaimable(root, &rnl.reclaimMark)
 		return err
 	}
 	rnlNew := t.mkRootNodeLoc(r)
@@ -243,6 +244,7 @@ func (t *Collection) Delete(key []byte) (wasDeleted bool, err error) {
 	t.store.ItemDecRef(t, i)
 	left, middle, right, err := t.store.split(t, root, key, &rnl.reclaimMark)
 	if err != nil {
+		t.unmarkReclaimable(root, &rnl.reclaimMark)
 		return false, err
 	}
 	defer t.freeNodeLoc(left)
@@ -253,6 +255,7 @@ func (t *Collection) Delete(key []byte) (wasDeleted bool, err error) {
 	}
 	r, err := t.store.join(t, left, right, &rnl.reclaimMark)
 	if err != nil {
+		t.unmarkReclaimable(root, &rnl.reclaimMark)
 		return false, err
 	}
 	rnlNew := t.mkRootNodeLoc(r)
